@@ -672,6 +672,22 @@ func (g *c15Gen) comments() (bool, []string) {
 	return true, out
 }
 
+// object names and names referred to, over all schemas
+func (g *c15Gen) allNames(ss ast.Schemas) []string {
+	out := []string{}
+	for _, s := range ss {
+		for _, o := range c15ObjList(s) {
+			out = append(out, o.Name)
+		}
+	}
+	for _, ref := range g.refsIn(ss) {
+		if _, n, ok := c15ObjRef(ref); ok {
+			out = append(out, n)
+		}
+	}
+	return out
+}
+
 func (g *c15Gen) refsIn(ss ast.Schemas) []string {
 	out := []string{}
 	for _, s := range ss {
@@ -833,6 +849,18 @@ func (g *c15Gen) step(name string, ss ast.Schemas) *c15Step {
 		st.S["entry_point"] = g.objName(ss, st.S["package"], false)
 	case "prefix":
 		st.S["prefix"] = pick(r, []string{"X", "my_", "Pre fix", "", "a-b", "2x", "foo", "Lib"})
+		// prefixes that existing names already start with (or are, or are a case variant of):
+		// "do not prefix twice" shortcuts must not exist
+		if names := g.allNames(ss); len(names) > 0 && r.chance(35) {
+			n := pick(r, names)
+			if len(n) > 1 && r.chance(60) {
+				n = n[:1+r.intn(len(n)-1)]
+			}
+			if r.chance(25) {
+				n = c15Variant(r, n)
+			}
+			st.S["prefix"] = n
+		}
 	case "append_comment":
 		st.S["comment"] = pick(r, []string{"Generated", "", "do not edit", "x: \"y\""})
 	}
